@@ -550,7 +550,8 @@ def rand_xrefs(rng, gid):
     if rng.random() < 0.9:
         x.append(('protId', 'P' + gid))
     if rng.random() < 0.4:
-        x.append(('geneId', 'G' + gid if rng.random() < 0.8 else 'shared'))
+        # (gene symbols: 'shared' by several genes, or spelled 'Hoxa1' / 'HOXA1' / 'hoxa1' -- different values)
+        x.append(('geneId', 'G' + gid if rng.random() < 0.7 else rng.choice(['shared', 'shared', 'Hoxa1', 'HOXA1', 'hoxa1'])))
     if rng.random() < 0.2:
         x.append(('transcriptId', 'T' + gid))
     if x and rng.random() < 0.06:
